@@ -57,7 +57,8 @@ def _mk_solver():
 class Ctx:
     cur = None
 
-    def __init__(self, prefix=(), base=()):
+    def __init__(self, prefix=(), base=(), epoch=0):
+        self.epoch = epoch
         self.prefix = list(prefix)
         self.pos = 0
         self.trace = []
@@ -164,11 +165,11 @@ def explore(fn, base=(), maxpaths=20000):
     outer = Ctx.cur
     global _PICK_EPOCH
     _PICK_EPOCH += 1
-    _PICK_CACHE.clear()
+    epoch = _PICK_EPOCH
     try:
         while work:
             sched = work.pop()
-            c = Ctx(sched, base)
+            c = Ctx(sched, base, epoch)
             Ctx.cur = c
             try:
                 r = ("ret", fn())
@@ -186,6 +187,10 @@ def explore(fn, base=(), maxpaths=20000):
                     raise Unsupported("path cap %d exceeded" % maxpaths)
     finally:
         Ctx.cur = outer
+        for k in [k for k in _PICK_CACHE if k[0] == epoch]:
+            del _PICK_CACHE[k]
+        for k in [k for k in _SUMMARY_CACHE if k[0] == epoch]:
+            del _SUMMARY_CACHE[k]
     return out
 
 
@@ -202,7 +207,7 @@ def pick(term, locate, cond_of, nparts):
         raise Unsupported("pick outside an exploration")
     tried = []
     while True:
-        key = (tuple(c.trace), len(tried))
+        key = (c.epoch, tuple(c.trace), len(tried))
         k = _PICK_CACHE.get(key)
         if k is None:
             m = c.model()
@@ -217,6 +222,86 @@ def pick(term, locate, cond_of, nparts):
             raise Unsupported("pick: more parts than the partition has")
         if c.branch(cond_of(k)):
             return k
+
+
+# --------------------------------------------------------------------------- function summaries
+
+_SUMMARY_CACHE = {}
+
+
+def skey(x):
+    """structural key of a (possibly symbolic) argument"""
+    if isinstance(x, SymStr):
+        return ("S",) + tuple(skey(c) for c in x.chars)
+    if isinstance(x, BitChar):
+        return ("b", x.b.c, x.b.atoms)
+    if isinstance(x, HexChar):
+        return ("h", tuple((b.c, b.atoms) for b in x.nib), x.upper.get_id())
+    if isinstance(x, TabChar):
+        return ("t", x.table, skey(x.idx))
+    if isinstance(x, SymInt):
+        if x.bits is not None:
+            return ("i", tuple((b.c, b.atoms) for b in x.bits))
+        return ("I", x._it.get_id())
+    if isinstance(x, SymBool):
+        return ("B", x.t.get_id())
+    if isinstance(x, SymReal):
+        return ("R", x.t.get_id())
+    if isinstance(x, (str, int, float, bool, type(None))):
+        return x
+    if isinstance(x, (tuple, list)):
+        return tuple(skey(v) for v in x)
+    raise Unsupported("skey(%s)" % type(x).__name__)
+
+
+def summarized(fn, name=None):
+    """Wrap a pure function with boolean / None / small-int results: a call with symbolic arguments explores the
+    callee's paths ONCE (under the work item's assumptions only, so the result can be reused on every outer path) and
+    returns one merged value instead of forking the caller.  Exceptions of the callee remain forks of the caller."""
+    nm = name or getattr(fn, "__name__", "fn")
+
+    def wrapper(*args, **kw):
+        c = Ctx.cur
+        if c is None or kw or not any(is_sym(a) for a in args):
+            return fn(*args, **kw)
+        key = (c.epoch, nm, skey(args))
+        ent = _SUMMARY_CACHE.get(key)
+        if ent is None:
+            base = c.pc[:c.nbase]
+            paths = explore(lambda: fn(*args), base=base)
+            Ctx.cur = c
+            nb = len(base)
+            groups = {}       # outcome key -> list of z3 conds
+            for p in paths:
+                cond = z3.And(p.pc[nb:]) if len(p.pc) > nb else z3.BoolVal(True)
+                if p.kind == "exc":
+                    groups.setdefault(("exc", type(p.value)), []).append(cond)
+                elif isinstance(p.value, SymBool):
+                    groups.setdefault(("ret", True), []).append(z3.And(cond, p.value.t))
+                    groups.setdefault(("ret", False), []).append(z3.And(cond, z3.Not(p.value.t)))
+                elif p.value is None or isinstance(p.value, (bool, int, str)):
+                    groups.setdefault(("ret", p.value), []).append(cond)
+                else:
+                    raise Unsupported("summary of %s: unmergeable result %s" % (nm, type(p.value).__name__))
+            ent = {k: z3.simplify(z3.Or(v)) for k, v in groups.items()}
+            _SUMMARY_CACHE[key] = ent
+        rets = [(k[1], t) for k, t in ent.items() if k[0] == "ret"]
+        for k, t in ent.items():
+            if k[0] == "exc" and bool(SymBool(t)):
+                raise k[1]("raised inside summarized %s" % nm)
+        if rets and all(isinstance(v, bool) for v, _ in rets):
+            tt = [t for v, t in rets if v is True]
+            return SymBool(z3.Or(tt) if len(tt) > 1 else tt[0]) if tt else False
+        # general small outcome set: fork the caller per distinct value
+        for v, t in rets[:-1]:
+            if bool(SymBool(t)):
+                return v
+        if rets:
+            return rets[-1][0]
+        raise PathAbort("summary: no outcome")
+    wrapper.__symx_summary__ = fn
+    wrapper.__name__ = nm
+    return wrapper
 
 
 # --------------------------------------------------------------------------- bits (GF(2) normal form)
@@ -1521,12 +1606,22 @@ def symx_strformat(fmt, *args, **kw):
     return OpaqueStr(fmt)
 
 
+MERGE_STR_DICT = False      # set by harnesses whose subject only prints the looked-up labels (tell)
+
+
 def symx_getitem(obj, key):
     """obj[key] with symbolic key / mask"""
     if isinstance(key, SymInt):
         if isinstance(obj, str):
             return SymStr([TabChar(obj, key)]) if not key.isconst() else obj[key.constval()]
         if isinstance(obj, dict):
+            if MERGE_STR_DICT and len(obj) >= 2 and all(isinstance(v, str) for v in obj.values()) \
+                    and all(isinstance(k, int) and not isinstance(k, bool) for k in obj):
+                # label tables of a pretty-printer: one fork (key present / KeyError) instead of one per key
+                present = z3.Or([tobool(key == k) for k in obj])
+                if bool(SymBool(present)):
+                    return OpaqueStr("label")
+                raise KeyError(key)
             for k in obj:
                 if isinstance(k, int):
                     r = key == k
